@@ -176,6 +176,15 @@ func runCheck(prop, tier string, verbose bool) int {
 	for _, l := range res.Lines {
 		fmt.Println(l)
 	}
+	if os.Getenv("GOVC_SLOW") != "" {
+		for _, r := range reps {
+			for _, o := range r.Obls {
+				if o.TimeS > 1.5 {
+					fmt.Printf("SLOW %.1fs %s [%s] %v\n", o.TimeS, o.Name, o.Solver, o.Results)
+				}
+			}
+		}
+	}
 	fmt.Printf("%s: %d obligations (%d queries), %d discharged, %d known findings, %d violations, %d engine errors, %.1fs\n",
 		prop, res.Obligations, res.Queries, res.Discharged, len(res.KnownHit), res.Violations, res.EngineErrors, res.WallS)
 	if res.Violations > 0 || res.EngineErrors > 0 {
